@@ -29,18 +29,23 @@ func verifEdgeCreated(se edge.StatsEdge, task, parent, child string) {
 	}
 }
 
-// verifEdgeClosed forgets a closed edge: a harness that starts hundreds of thousands of tasks in one
-// process would otherwise keep every edge (and its channel buffer) alive through this registry.
-func verifEdgeClosed(e *Edge) {
-	verifEdgeNames.Delete(e)
-}
+// verifEdgeClosed: nothing to do when the sender closes an edge - the receiver may still take buffered
+// messages off it, and those emits must be reported under the edge's name like any other.  The edge is
+// forgotten by the Emit override once the receiver has drained it (see below), so that a harness which
+// starts hundreds of thousands of tasks in one process does not keep every edge alive through the registry.
+func verifEdgeClosed(e *Edge) {}
 
 // Emit wraps the embedded StatsEdge.Emit: point "edge.emit" (task, parent,
 // child) is reported from the receiving node's goroutine for every message it
 // takes off the edge.  Only present in verif builds.
 func (e *Edge) Emit() (edge.Message, bool) {
 	m, ok := e.StatsEdge.Emit()
-	if ok && VerifHook != nil {
+	if !ok {
+		// closed and drained, or aborted: no further message will come off this edge
+		verifEdgeNames.Delete(e)
+		return m, ok
+	}
+	if VerifHook != nil {
 		if n, found := verifEdgeNames.Load(e); found {
 			names := n.([3]string)
 			verifHook("edge.emit", names[0], names[1], names[2])
